@@ -21,7 +21,7 @@ def cfgLE (le : Bool) : Cfg := { cfg with littleEndian := le }
 theorem cfgLE_good (le : Bool) : (cfgLE le).Good := by
   have g := cfg_good
   exact ⟨g.afInet, g.afInet6, g.afUnix, g.sockStream, g.connNone, g.statuses, g.inodesExtend,
-    g.unixPathRest, g.inetN, g.iLaddr, g.iRaddr, g.iStatus, g.iInode, g.unixN, g.uType, g.uInode⟩
+    g.unixPathRest, g.inetN, g.iLaddr, g.iRaddr, g.iStatus, g.iInode, g.unixN, g.uType, g.uInode, g.ntop6⟩
 
 /-! ## Addresses -/
 
